@@ -45,6 +45,13 @@ def _opts(draw, fn, names, has_layer, src=None):
         o["flattenComponents"] = True
     if F.chance(draw, 1, 4):
         o["skipExportGlyphs"] = [draw(st.sampled_from(names))]
+        if src is not None and F.chance(draw, 1, 2):
+            # ... together with a skipped composite helper built from it (or the skipped base of the skipped composite)
+            first = o["skipExportGlyphs"][0]
+            rel = [g["name"] for g in src["glyphs"] if g["name"] in names and g["name"] != first and (any(c["base"] == first for c in g.get("components", []))
+                   or any(c["base"] == g["name"] for h in src["glyphs"] if h["name"] == first for c in h.get("components", [])))]
+            if rel:
+                o["skipExportGlyphs"].append(draw(st.sampled_from(rel)))
     if F.chance(draw, 1, 4):
         o["useProductionNames"] = draw(st.booleans())
     if F.chance(draw, 1, 4):
@@ -283,6 +290,8 @@ def run_case(case, ctx):
     src = case.get("spec") or case["fam"]["base"]
     lib = src.get("lib", {})
     ctx.label(case["kind"])
+    if any(len(op["opts"].get("skipExportGlyphs", [])) > 1 for op in case["ops"]):
+        ctx.label("skipped-composite-of-a-skipped-glyph")
     if case["kind"] == "family" and case["fam"].get("partial_locations"):
         ctx.label("sources-with-partial-locations")
     if case["kind"] == "family" and "public.fontInfo" in case["fam"].get("lib", {}):
